@@ -317,8 +317,9 @@ func renameIdent(e Expr, from, to string) Expr {
 }
 
 // quant enumerates a bounded quantifier. Supported shapes:
-//   forall i int :: lo <= i && i < hi [&& more] ==> body          (exists: lo <= i && i < hi && body)
-//   forall i int, j int :: lo <= i && i < j && j < hi ==> f(i) != f(j)   (decided by a duplicate search)
+//
+//	forall i int :: lo <= i && i < hi [&& more] ==> body          (exists: lo <= i && i < hi && body)
+//	forall i int, j int :: lo <= i && i < j && j < hi ==> f(i) != f(j)   (decided by a duplicate search)
 func (g *groundEval) quant(x *EQuant) interface{} {
 	var rng, body Expr
 	if x.Forall {
